@@ -121,9 +121,12 @@ func genC05(r *Rand, tier string, i int) *h.Scenario {
 }
 
 func judgeC05(hi *Hist) []*Violation {
-	if hi.Res.Outcome != simrt.OK || faulted(hi) {
+	if hi.Res.Outcome == simrt.Panic || faulted(hi) {
 		return nil
 	}
+	// the frames written before a hang or deadlock are judged like any others; only the rules
+	// that need the end of the run (the notifier) are skipped then
+	partial := hi.Res.Outcome != simrt.OK
 	frames := ParseFrames(hi)
 	facts := Facts(hi)
 	var out []*Violation
@@ -186,6 +189,17 @@ func judgeC05(hi *Hist) []*Violation {
 				}
 			}
 		}
+		// a bar queued behind another is no longer "waiting behind" it once that bar has left: it is
+		// due in the frame after the predecessor's last one
+		if bf.Queued {
+			ppr := presence[bf.Pred]
+			if len(ppr) > 0 && ppr[len(ppr)-1] < len(frames)-1 {
+				L := ppr[len(ppr)-1]
+				if bf.AddRet < cycleFirstEvent(hi, frames, L) && (len(pr) == 0 || pr[0] > L+1) {
+					add("successor-missing", "bar %d left after frame %d and bar %d was queued behind it before that frame was drawn, but frame %d does not show it: %s", bf.Pred, L, bf.Idx, L+1, frames[L+1])
+				}
+			}
+		}
 		// (4) leaving
 		if len(pr) > 0 && pr[len(pr)-1] < len(frames)-1 {
 			L := pr[len(pr)-1]
@@ -207,7 +221,7 @@ func judgeC05(hi *Hist) []*Violation {
 	// (5) shutdown notifier
 	for i := range hi.Log {
 		e := &hi.Log[i]
-		if e.Kind != h.EvNotified {
+		if e.Kind != h.EvNotified || partial {
 			continue
 		}
 		if e.A == 2 {
